@@ -1,2 +1,288 @@
-(** C10 (in progress). *)
+(** C10 — A failed or interrupted pull never publishes a file, and never a
+    partial one.  Statements about the model of the pull-to-file commit path
+    (Model/SvsCommit.v): [write_file] / [TempFile], the trailer-verified and the
+    async consumers, [TrailerHold], [run_pull].  This file contains only
+    statements (closed by [exact] or a one-line application), their pins, their
+    assumptions and non-vacuity examples.
+
+    Not claimed: durability after power loss (the reason for [sync_all]) — the
+    model gives [SSync] no observable effect and nothing here depends on it. *)
 From RepeV Require Import Model.SvsCommit Proofs.SvsCommitProofs.
+
+(** crash anywhere.  For every pull (every segmentation of the received content,
+    every ending, every verifier verdict, blocking or async), every split of its
+    step list into an executed prefix and a never-executed rest, and every
+    initial file system: if the rename is not in the prefix the destination is
+    what it was; if it is, the destination is the complete content (trailer
+    stripped) and the pull is one that reports success. *)
+Theorem C10_dst_old_or_complete : forall p pre suf s0,
+  fst (protocol p) = pre ++ suf ->
+  (~ In SRename pre -> f_dst (apply_steps pre s0) = f_dst s0) /\
+  (In SRename pre ->
+     f_dst (apply_steps pre s0) = Some (stripped (pr_trailer p) (content p)) /\
+     snd (protocol p) = ROk).
+Proof. exact protocol_crash_safe. Qed.
+
+(** a kill at the n-th hit of any probe point other than [svs.after_rename]
+    executes a prefix without the rename: the destination is what it was *)
+Theorem C10_kill_before_rename_keeps_dst : forall p q n pre s0,
+  cut_at q n (fst (protocol p)) = Some pre -> q <> PAfterRename ->
+  f_dst (apply_steps pre s0) = f_dst s0.
+Proof. intros p q n pre s0 C Hq. apply dst_preserved. exact (kill_before_rename p q n pre C Hq). Qed.
+
+(** every in-process failure (producer failure or lost connection after any
+    number of responses, rejecting verifier, stream shorter than the trailer):
+    destination unchanged, temp file absent *)
+Theorem C10_failure_leaves_dst_and_no_temp : forall p s0,
+  snd (protocol p) = RErr -> apply_steps (fst (protocol p)) s0 = mkFs (f_dst s0) None.
+Proof. exact protocol_failure. Qed.
+
+(** success publishes exactly the complete content, trailer stripped, leaves no
+    temp file, and is reported only for a stream that ended with [last], is at
+    least as long as the trailer and was not rejected *)
+Theorem C10_success_publishes_exact_content : forall p s0,
+  snd (protocol p) = ROk ->
+  apply_steps (fst (protocol p)) s0 = mkFs (Some (stripped (pr_trailer p) (content p))) None /\
+  pr_clean p = true /\ pr_reject p = false /\ short_for (pr_trailer p) (content p) = false.
+Proof. exact protocol_success. Qed.
+
+(** a pull only ever reports ok or error *)
+Theorem C10_result_ok_or_err : forall p, snd (protocol p) = ROk \/ snd (protocol p) = RErr.
+Proof. exact protocol_result. Qed.
+
+(** TrailerHold over any sequence of writes: forwarded ++ held is everything
+    written and exactly min(n, total) bytes are held *)
+Theorem C10_trailer_hold_split : forall n writes,
+  concat (fst (hold_run n [] writes)) ++ snd (hold_run n [] writes) = concat writes /\
+  length (snd (hold_run n [] writes)) = Nat.min n (length (concat writes)).
+Proof. exact trailer_hold_split. Qed.
+
+(** hence, for a stream at least as long as the trailer, the file receives the
+    payload without its last n bytes and the trailer is those n bytes, for every
+    segmentation *)
+Theorem C10_trailer_hold_committed : forall n writes, (n <= length (concat writes))%nat ->
+  concat (fst (hold_run n [] writes)) = firstn (length (concat writes) - n) (concat writes) /\
+  snd (hold_run n [] writes) = skipn (length (concat writes) - n) (concat writes).
+Proof. exact trailer_hold_committed. Qed.
+
+(** [into_trailer] errors iff the stream is shorter than the trailer *)
+Theorem C10_short_stream_errors : forall n writes,
+  into_trailer_errors n (snd (hold_run n [] writes)) = (length (concat writes) <? n)%nat.
+Proof. exact short_stream_errors. Qed.
+
+(** the protocol model's fill phase is TrailerHold run over the received pieces *)
+Theorem C10_fill_is_trailer_hold : forall n ps,
+  writes_of (fst (fill (Some n) [] ps)) = concat (fst (hold_run n [] ps)) /\
+  snd (fill (Some n) [] ps) = snd (hold_run n [] ps).
+Proof. intros n ps. exact (fill_hold_run n ps [] (Nat.le_0_l n)). Qed.
+
+(** [run_pull]: when the pull failed the result is the error, whatever the
+    consumer returned *)
+Theorem C10_run_pull_error_first : forall (V : Type) (v : option V), run_pull false v = None.
+Proof. exact @run_pull_truncated. Qed.
+
+(** a value pull whose stream did not end with [last] is an error and yields no value *)
+Theorem C10_value_pull_errors_on_truncation : forall c,
+  is_value (c_puller c) = true -> snd (recv c) = false ->
+  o_res (model_C10 c) = RErr /\ o_dst (model_C10 c) = None.
+Proof. exact value_truncated_errors. Qed.
+
+(** result and final file system of an in-process pull depend on the received
+    content, not on how it was cut into pieces *)
+Theorem C10_obs_segmentation_independent : forall p p' s0,
+  concat (pr_pieces p) = concat (pr_pieces p') ->
+  pr_clean p = pr_clean p' -> pr_trailer p = pr_trailer p' -> pr_reject p = pr_reject p' ->
+  snd (protocol p) = snd (protocol p') /\
+  apply_steps (fst (protocol p)) s0 = apply_steps (fst (protocol p')) s0.
+Proof. exact protocol_segmentation_independent. Qed.
+
+(** on cases: whatever must fail (producer failure, connection cut before the
+    last response, rejecting verifier, trailer longer than the stream) does not
+    report success *)
+Theorem C10_must_fail_fails : forall c,
+  c10_wf c = true -> must_fail c = true -> o_res (model_C10 c) <> ROk.
+Proof. exact case_must_fail. Qed.
+
+(** on cases: a failed file pull leaves the destination as it was (absent stays
+    absent) and no temp file *)
+Theorem C10_case_failure : forall c,
+  is_value (c_puller c) = false -> o_res (model_C10 c) = RErr ->
+  o_dst (model_C10 c) = c_dst c /\ o_tmp (model_C10 c) = false.
+Proof. exact case_failure. Qed.
+
+(** on cases: a successful file pull published the expected content *)
+Theorem C10_case_success : forall c,
+  c10_wf c = true -> is_value (c_puller c) = false -> o_res (model_C10 c) = ROk ->
+  o_dst (model_C10 c) = Some (expected c) /\ o_tmp (model_C10 c) = false /\ must_fail c = false.
+Proof. exact case_success. Qed.
+
+(** the executable oracle (also applied to the implementation's observations)
+    accepts the model on every well-formed case *)
+Theorem C10_holds : forall c, c10_wf c = true -> ok_C10 c (model_C10 c) = true.
+Proof. exact ok_model_C10. Qed.
+
+(** ** non-vacuity *)
+
+Definition ex_stream : bytes := [1; 2; 3; 4; 5; 6; 7; 8; 9; 10].
+Definition ex_case (pu : puller) (tr : N) (dst : option bytes) (f : fault) : case :=
+  mkCase pu ex_stream ex_stream false 4 tr dst (Some [99]) f.
+
+(** the step list of a clean trailer pull: chunks 4,4,2, trailer 3 *)
+Example C10_ex_steps :
+  protocol (proto_of (ex_case PuTrailer 3 None FNone)) =
+  ([SCreate; SProbe PAfterCreate;
+    SProbe PFetch; SWrite [1]; SProbe PFetch; SWrite [2; 3; 4]; SWrite [5];
+    SProbe PFetch; SWrite [6; 7];
+    SProbe PBeforeFlush; SFlush; SProbe PBeforeSync; SSync;
+    SProbe PBeforeRename; SRename; SProbe PAfterRename], ROk).
+Proof. vm_compute. reflexivity. Qed.
+
+(** success over an existing destination and a stale temp file: payload without
+    the 3-byte trailer, temp gone *)
+Example C10_ex_success :
+  c10_wf (ex_case PuTrailer 3 (Some [7; 7]) FNone) = true /\
+  model_C10 (ex_case PuTrailer 3 (Some [7; 7]) FNone) = mkObs ROk (Some [1; 2; 3; 4; 5; 6; 7]) false.
+Proof. vm_compute. split; reflexivity. Qed.
+
+(** every kind of failure leaves the old content and removes the temp file *)
+Example C10_ex_failures :
+  map (fun f => model_C10 (ex_case PuATrailer 3 (Some [7; 7]) f))
+      [FProducer 9; FCut 0; FCut 2; FReject]
+  = repeat (mkObs RErr (Some [7; 7]) false) 4 /\
+  model_C10 (ex_case PuTrailer 11 None FNone) = mkObs RErr None false /\
+  model_C10 (ex_case PuFile 0 None (FCut 3)) = mkObs ROk (Some ex_stream) false.
+Proof. vm_compute. repeat split; reflexivity. Qed.
+
+(** kills: before the rename the destination is old and the temp file is left
+    behind; after it the destination is complete; a hit count that is never
+    reached lets the pull finish *)
+Example C10_ex_kills :
+  map (fun pn => model_C10 (ex_case PuFile 0 (Some [7; 7]) (FKill (fst pn) (snd pn))))
+      [(PAfterCreate, 1); (PFetch, 1); (PFetch, 3); (PFetch, 4); (PBeforeFlush, 1); (PBeforeSync, 1);
+       (PBeforeRename, 1); (PAfterRename, 1); (PBeforeRename, 2)]
+  = [mkObs RKilled (Some [7; 7]) true; mkObs RKilled (Some [7; 7]) true; mkObs RKilled (Some [7; 7]) true;
+     mkObs ROk (Some ex_stream) false; mkObs RKilled (Some [7; 7]) true; mkObs RKilled (Some [7; 7]) true;
+     mkObs RKilled (Some [7; 7]) true; mkObs RKilled (Some ex_stream) false; mkObs ROk (Some ex_stream) false].
+Proof. vm_compute. reflexivity. Qed.
+
+(** the hypotheses of the crash theorem are satisfiable on both sides: a prefix
+    without and a prefix with the rename *)
+Example C10_ex_prefixes :
+  let p := proto_of (ex_case PuFile 0 (Some [7; 7]) FNone) in
+  let s0 := mkFs (Some [7; 7]) None in
+  apply_steps (firstn 6 (fst (protocol p))) s0 = mkFs (Some [7; 7]) (Some [1; 2; 3; 4; 5; 6; 7; 8]) /\
+  ~ In SRename (firstn 6 (fst (protocol p))) /\
+  In SRename (firstn 14 (fst (protocol p))) /\
+  apply_steps (firstn 14 (fst (protocol p))) s0 = mkFs (Some ex_stream) None.
+Proof.
+  vm_compute. repeat split; try reflexivity.
+  - intros H. repeat (destruct H as [H|H]; [discriminate|]). exact H.
+  - do 13 right. left. reflexivity.
+Qed.
+
+(** TrailerHold across three segmentations of the same 10 bytes, n = 3, and a short stream *)
+Example C10_ex_hold :
+  map (fun ws => let r := hold_run 3 [] ws in (concat (fst r), snd r))
+      [[ex_stream]; [[1]; [2]; [3]; [4]; [5]; [6]; [7]; [8]; [9]; [10]]; [[1; 2]; [3; 4; 5; 6; 7]; [8]; [9; 10]]]
+  = repeat ([1; 2; 3; 4; 5; 6; 7], [8; 9; 10]) 3 /\
+  into_trailer_errors 3 (snd (hold_run 3 [] [[1]; [2]])) = true.
+Proof. vm_compute. split; reflexivity. Qed.
+
+(** value pulls: complete -> the value; truncated -> an error, although the
+    async consumer of the model did build a value from the truncated input *)
+Example C10_ex_value :
+  let c f := mkCase PuAValue ex_stream ex_stream false 4 0 None None f in
+  model_C10 (c FNone) = mkObs ROk (Some ex_stream) false /\
+  model_C10 (c (FCut 2)) = mkObs RErr None false /\
+  snd (recv (c (FCut 2))) = false /\
+  concat (firstn (fst (recv (c (FCut 2)))) (pieces (c (FCut 2)))) = [1; 2; 3; 4; 5; 6; 7; 8].
+Proof. vm_compute. repeat split; reflexivity. Qed.
+
+(** the oracle is not trivially true: it rejects a partial file published under
+    "ok", a published file after a cut stream, a destination touched by a
+    failure, a temp file left by a failure, a partial destination after a kill,
+    a complete destination after a kill before the rename, and a value returned
+    from a truncated stream *)
+Example C10_oracle_rejects :
+  let c f := ex_case PuFile 0 (Some [7; 7]) f in
+  ok_C10 (c FNone) (mkObs ROk (Some ex_stream) false) = true /\
+  ok_C10 (c FNone) (mkObs ROk (Some [1; 2; 3; 4]) false) = false /\
+  ok_C10 (c (FCut 1)) (mkObs ROk (Some ex_stream) false) = false /\
+  ok_C10 (c (FCut 1)) (mkObs RErr (Some [1; 2; 3; 4]) false) = false /\
+  ok_C10 (c (FCut 1)) (mkObs RErr None false) = false /\
+  ok_C10 (c (FCut 1)) (mkObs RErr (Some [7; 7]) true) = false /\
+  ok_C10 (c (FKill PFetch 2)) (mkObs RKilled (Some [1; 2; 3; 4]) true) = false /\
+  ok_C10 (c (FKill PBeforeRename 1)) (mkObs RKilled (Some ex_stream) false) = false /\
+  ok_C10 (c (FKill PBeforeRename 1)) (mkObs RKilled (Some [7; 7]) true) = true /\
+  ok_C10 (mkCase PuValue ex_stream ex_stream false 4 0 None None (FCut 2)) (mkObs ROk (Some [1; 2; 3; 4; 5; 6; 7; 8]) false) = false.
+Proof. vm_compute. repeat split; reflexivity. Qed.
+
+Check C10_dst_old_or_complete : forall p pre suf s0,
+  fst (protocol p) = pre ++ suf ->
+  (~ In SRename pre -> f_dst (apply_steps pre s0) = f_dst s0) /\
+  (In SRename pre ->
+     f_dst (apply_steps pre s0) = Some (stripped (pr_trailer p) (content p)) /\
+     snd (protocol p) = ROk).
+Check C10_kill_before_rename_keeps_dst : forall p q n pre s0,
+  cut_at q n (fst (protocol p)) = Some pre -> q <> PAfterRename ->
+  f_dst (apply_steps pre s0) = f_dst s0.
+Check C10_failure_leaves_dst_and_no_temp : forall p s0,
+  snd (protocol p) = RErr -> apply_steps (fst (protocol p)) s0 = mkFs (f_dst s0) None.
+Check C10_success_publishes_exact_content : forall p s0,
+  snd (protocol p) = ROk ->
+  apply_steps (fst (protocol p)) s0 = mkFs (Some (stripped (pr_trailer p) (content p))) None /\
+  pr_clean p = true /\ pr_reject p = false /\ short_for (pr_trailer p) (content p) = false.
+Check C10_result_ok_or_err : forall p, snd (protocol p) = ROk \/ snd (protocol p) = RErr.
+Check C10_trailer_hold_split : forall n writes,
+  concat (fst (hold_run n [] writes)) ++ snd (hold_run n [] writes) = concat writes /\
+  length (snd (hold_run n [] writes)) = Nat.min n (length (concat writes)).
+Check C10_trailer_hold_committed : forall n writes, (n <= length (concat writes))%nat ->
+  concat (fst (hold_run n [] writes)) = firstn (length (concat writes) - n) (concat writes) /\
+  snd (hold_run n [] writes) = skipn (length (concat writes) - n) (concat writes).
+Check C10_short_stream_errors : forall n writes,
+  into_trailer_errors n (snd (hold_run n [] writes)) = (length (concat writes) <? n)%nat.
+Check C10_fill_is_trailer_hold : forall n ps,
+  writes_of (fst (fill (Some n) [] ps)) = concat (fst (hold_run n [] ps)) /\
+  snd (fill (Some n) [] ps) = snd (hold_run n [] ps).
+Check C10_run_pull_error_first : forall (V : Type) (v : option V), run_pull false v = None.
+Check C10_value_pull_errors_on_truncation : forall c,
+  is_value (c_puller c) = true -> snd (recv c) = false ->
+  o_res (model_C10 c) = RErr /\ o_dst (model_C10 c) = None.
+Check C10_obs_segmentation_independent : forall p p' s0,
+  concat (pr_pieces p) = concat (pr_pieces p') ->
+  pr_clean p = pr_clean p' -> pr_trailer p = pr_trailer p' -> pr_reject p = pr_reject p' ->
+  snd (protocol p) = snd (protocol p') /\
+  apply_steps (fst (protocol p)) s0 = apply_steps (fst (protocol p')) s0.
+Check C10_must_fail_fails : forall c,
+  c10_wf c = true -> must_fail c = true -> o_res (model_C10 c) <> ROk.
+Check C10_case_failure : forall c,
+  is_value (c_puller c) = false -> o_res (model_C10 c) = RErr ->
+  o_dst (model_C10 c) = c_dst c /\ o_tmp (model_C10 c) = false.
+Check C10_case_success : forall c,
+  c10_wf c = true -> is_value (c_puller c) = false -> o_res (model_C10 c) = ROk ->
+  o_dst (model_C10 c) = Some (expected c) /\ o_tmp (model_C10 c) = false /\ must_fail c = false.
+Check C10_holds : forall c, c10_wf c = true -> ok_C10 c (model_C10 c) = true.
+
+(** the auxiliary notions of the statements are the plain ones *)
+Check (eq_refl : stripped = fun tr l => match tr with Some n => firstn (length l - n) l | None => l end).
+Check (eq_refl : short_for = fun tr l => match tr with Some n => (length l <? n)%nat | None => false end).
+Check (eq_refl : content = fun p => concat (pr_pieces p)).
+Check (eq_refl : writes_of = fix writes_of (l : list step) : bytes :=
+  match l with [] => [] | SWrite b :: r => b ++ writes_of r | _ :: r => writes_of r end).
+
+Print Assumptions C10_dst_old_or_complete.
+Print Assumptions C10_kill_before_rename_keeps_dst.
+Print Assumptions C10_failure_leaves_dst_and_no_temp.
+Print Assumptions C10_success_publishes_exact_content.
+Print Assumptions C10_result_ok_or_err.
+Print Assumptions C10_trailer_hold_split.
+Print Assumptions C10_trailer_hold_committed.
+Print Assumptions C10_short_stream_errors.
+Print Assumptions C10_fill_is_trailer_hold.
+Print Assumptions C10_run_pull_error_first.
+Print Assumptions C10_value_pull_errors_on_truncation.
+Print Assumptions C10_obs_segmentation_independent.
+Print Assumptions C10_must_fail_fails.
+Print Assumptions C10_case_failure.
+Print Assumptions C10_case_success.
+Print Assumptions C10_holds.
